@@ -61,14 +61,16 @@ def suffix_circuit():
     I = lambda *ns: [(n, "input", []) for n in ns]
     nodes = I("clk", "sclk", "a", "b") + [("q0", "buf", []), ("nq0", "buf", []), ("q1", "buf", []), ("g", "xor", ["q0", "nq0", "q1"], True)]
     edges = []
-    for inst, conn in (("f0", {"CK": "clk", "SCK": "sclk", "D": "a", "SD": "b", "Q": "q0", "NQ": "nq0"}), ("f1", {"CK": "clk", "D": "g", "SD": "a", "Q": "q1"})):
+    nodes.append(("q2", "buf", [], True))
+    for inst, conn in (("f0", {"CK": "clk", "SCK": "sclk", "D": "a", "SD": "b", "Q": "q0", "NQ": "nq0"}), ("f1", {"CK": "clk", "D": "g", "SD": "a", "Q": "q1"}),
+                       ("core.f2", {"CK": "clk", "D": "b", "Q": "q2"})):  # an instance name that itself contains a dot
         for p_ in SUFFIX_BOX[1]:
             nodes.append((f"{inst}.{p_}", "bb_input", [conn[p_]] if p_ in conn else []))
         for p_ in SUFFIX_BOX[2]:
             nodes.append((f"{inst}.{p_}", "bb_output", []))
             if p_ in conn:
                 edges.append((f"{inst}.{p_}", conn[p_]))
-    return mkspec("suffix", nodes, edges=edges, bbs={"f0": SUFFIX_BOX, "f1": SUFFIX_BOX})
+    return mkspec("suffix", nodes, edges=edges, bbs={"f0": SUFFIX_BOX, "f1": SUFFIX_BOX, "core.f2": SUFFIX_BOX})
 
 
 def all_cases(ctx):
